@@ -55,7 +55,10 @@ def session_prefix(ctx, cid, line):
         return line
     out = []
     for p in ctx.case_files:
-        for l in open(p):
+        lines = open(p).readlines()
+        if not any(json.loads(l).get("id") == cid for l in lines if ('"id": %d' % cid) in l or ('"id":%d' % cid) in l):
+            continue        # sessions are numbered per case file
+        for l in lines:
             if '"sess"' in l:
                 d = json.loads(l)
                 if d.get("sess") == c["sess"] and d["id"] <= cid and (d["id"] - cid) > -1000:
@@ -66,6 +69,9 @@ def session_prefix(ctx, cid, line):
 def confirm(ctx, module, cid, want_class):
     """Re-runs one case (with its session history, if any) in a fresh process; the rejection must reappear."""
     line = find_case(ctx, cid)
+    alias = None
+    if line is not None and json.loads(line).get("ev") == "codec" and module != "TraceCodec":
+        module, alias = "TraceCodec", "C01"        # history-independence cases of C10 are ordinary round trips
     if line is None:
         raise Broken("case %d not found for confirmation" % cid)
     rd = os.path.join(vlib.ROOT, "replays", ctx.prop)
@@ -77,6 +83,8 @@ def confirm(ctx, module, cid, want_class):
     for attempt in range(3):
         _, verdicts, _ = judge_file(ctx, module, rp, "confirm%d_%d" % (cid, attempt), budget="30s", workers=1)
         for (i, prop, reason) in verdicts:
+            if alias and i == cid and prop == alias and not reason.startswith("known:"):
+                return rp
             if i == cid and prop == ctx.prop and not reason.startswith("known:") and reason_class(reason) == want_class:
                 return rp
     return None
@@ -194,6 +202,57 @@ def plan_C14(ctx):
     return codec_family(ctx, 6000, 200000)
 
 
+def decode_family(ctx, kinds, n_quick, n_thorough, with_codec_sessions=False):
+    """C03 / C10: "evolve" events (MCEvolve's universe + random derived types / pre-populated targets) judged by TraceDecode."""
+    ctx.build()
+    nest = '{"top", "nested"}' if ctx.quick else '{"top", "nested", "slice"}'
+    cases, st = fam_codec.mc_generic(ctx.work, "MCEvolve", "  Env <- MCEnv\n  Emit = TRUE\n  Nest = %s\n" % nest, "Evolves SkipExact")
+    ctx.add_mc(st)
+    log("design check MCEvolve: %d states, %d cases" % (st["distinct"], len(cases)))
+    for c in cases:
+        c["cfg"] = fam_codec.CFGS["default"]
+    p1 = os.path.join(ctx.work, "mc_cases.ndjson")
+    fam_codec.write_cases(cases, p1, 0)
+    ctx.case_files = [p1]
+    traces = [fam_codec.run_cases(ctx.pvh, p1, ctx.work, "mc")]
+    n = n_quick if ctx.quick else n_thorough
+    for j, kind in enumerate(kinds):
+        pk = fam_codec.gen_random(ctx.pvh, ctx.work, n, ctx.seed + j, cfg="mix", kind=kind, idbase=(j + 1) * 1000000, tag=kind)
+        ctx.case_files.append(pk)
+        traces.append(fam_codec.run_cases(ctx.pvh, pk, ctx.work, kind))
+    trace = os.path.join(ctx.work, "all_trace.ndjson")
+    with open(trace, "w") as f:
+        for t in traces:
+            f.write(open(t).read())
+    verdicts, jst = vlib.judge(ctx.work, "TraceDecode", trace, ctx.env, ctx.open, tag="main")
+    all_traces = [trace]
+    if with_codec_sessions:
+        # history independence: ordinary round trips into fresh variables on a long-lived shared instance
+        pc = fam_codec.gen_random(ctx.pvh, ctx.work, n, ctx.seed + 7, cfg="mix", kind="codec", idbase=9000000, tag="sess")
+        ctx.case_files.append(pc)
+        tc = fam_codec.run_cases(ctx.pvh, pc, ctx.work, "sess")
+        v2, jst2 = vlib.judge(ctx.work, "TraceCodec", tc, ctx.env, ctx.open, tag="sessj")
+        verdicts += [(i, ctx.prop, "fresh-decode-after-history:" + r) for (i, p, r) in v2 if p == "C01"]
+        for k in ("events", "generated", "distinct"):
+            jst[k] = jst.get(k, 0) + jst2.get(k, 0)
+        all_traces.append(tc)
+        ctx.codec_ids = 9000000
+    rule = ("S->C: MCEvolve's universe (S = 3 fields over one kind per wire type / container form, S' = 6 removal / reorder / addition variants, "
+            "zero and non-zero values, pre-populated targets, nesting %s); C->S: %d random cases per kind %s (derived S', targets pre-populated with "
+            "longer / shorter slices incl. stale elements beyond len, overlapping map keys, non-nil pointers; sessions of 50 share one instance)."
+            " non-trivial = the marshalled bytes are non-empty" % (nest, n, list(kinds)))
+    return finish(ctx, "TraceDecode", verdicts, all_traces, jst, rule, CODEC_ASSUME + [
+        "whether a re-used slice that ends up empty is nil or empty is left open (compared after normalising empties)"])
+
+
+def plan_C03(ctx):
+    return decode_family(ctx, ["evolve"], 5000, 100000)
+
+
+def plan_C10(ctx):
+    return decode_family(ctx, ["merge", "evolve"], 4000, 60000, with_codec_sessions=True)
+
+
 def plan_C18(ctx):
     ctx.build()
     cases, st = fam_codec.mc_generic(ctx.work, "MCPrim", "  MaxLimbs = %d\n  Emit = TRUE\n" % (3 if ctx.quick else 5),
@@ -227,6 +286,7 @@ def plan_C12(ctx):
     return codec_family(ctx, 6000, 200000, mc_cfgs_quick=("both", "pa"), rnd_cfg="mix")
 
 
-PLANS = {"C18": plan_C18, "C12": plan_C12, "C01": plan_C01, "C02": plan_C02, "C05": plan_C05, "C09": plan_C09, "C14": plan_C14}
+PLANS = {"C03": plan_C03, "C10": plan_C10, "C18": plan_C18, "C12": plan_C12, "C01": plan_C01, "C02": plan_C02, "C05": plan_C05, "C09": plan_C09, "C14": plan_C14}
 MODULES = {k: "TraceCodec" for k in PLANS}
 MODULES["C18"] = "TracePrim"
+MODULES["C03"] = MODULES["C10"] = "TraceDecode"
